@@ -62,23 +62,24 @@ def harness(u, g, arm, nmax, E, D):
     label, code, inb = arm
     body = "  IN_BYTES(img, NMAX); IN(u64, n); VASSUME(n <= NMAX);\n"
     body += "  unsigned char *buf = VMALLOC(n); for (unsigned i = 0; i < NMAX; i++) if (i < n) buf[i] = img[i];   /* exact-size allocation */\n"
+    body += "  ref_shrink = 1000;   /* safety direction: every wire blockLength from 0 to compiled+E (a block shorter than the compiled one is what an older or hostile sender produces) */\n"
     body += "  struct geo_%s r; ref_walk_%s(img, NMAX, &r, %d, %d); VASSUME(r.ok);   /* header contents steer the offsets; counts/lengths bounded */\n" % (g.M, g.M, E, D)
     body += "  IN(u32, i0); IN(u32, i1); VASSUME(i0 < %d && i1 < %d);\n" % (g.G, g.G)
     body += code
     body += '  VASSERT(verif_aborted || !verif_oob, "if the assertion handler is not invoked, the operation accessed no byte at or beyond p+n");\n'
     if inb and inb.startswith("NOFULL:"):
-        body += '  if (n >= r.end && n >= %s) VASSERT(!verif_aborted, "a call whose preconditions hold and whose accessed bytes lie inside the buffer never invokes the handler");\n' % inb[7:]
+        body += '  if (!r.shrunk && n >= r.end && n >= %s) VASSERT(!verif_aborted, "a call whose preconditions hold and whose accessed bytes lie inside the buffer never invokes the handler");\n' % inb[7:]
     elif inb:
-        body += '  if (n >= r.end || n >= %s) VASSERT(!verif_aborted, "a call whose preconditions hold and whose accessed bytes lie inside the buffer never invokes the handler");\n' % inb
+        body += '  if (!r.shrunk && (n >= r.end || n >= %s)) VASSERT(!verif_aborted, "a call whose preconditions hold and whose accessed bytes lie inside the buffer never invokes the handler");\n' % inb
     else:
-        body += '  if (n >= r.end) VASSERT(!verif_aborted, "with the whole image inside the buffer the handler is never invoked");\n'
+        body += '  if (!r.shrunk && n >= r.end) VASSERT(!verif_aborted, "with the whole image inside the buffer the handler is never invoked");\n'
     return hgen.harness([u], body, pre="#define NMAX %d\n" % nmax + g.ref_c())
 
 
 def build(ctx):
     hs = []
     G, D, E = 2, 1, 1
-    ctx.assumptions = ["checked build (SBEPP_ENABLE_ASSERTS_WITH_HANDLER); view = (malloc(n), n) with n symbolic from 0 to the full image size; image bytes symbolic; geometry of the image within bounds (numInGroup <= %d, data length <= %d, wire blockLength in [compiled, compiled+%d])" % (G, D, E),
+    ctx.assumptions = ["checked build (SBEPP_ENABLE_ASSERTS_WITH_HANDLER); view = (malloc(n), n) with n symbolic from 0 to the full image size; image bytes symbolic; geometry of the image within bounds (numInGroup <= %d, data length <= %d, wire blockLength in [0, compiled+%d] for the safety direction, in [compiled, compiled+%d] for the no-spurious-handler direction)" % (G, D, E, E),
                        "every arm is ONE library call with otherwise valid arguments (index < size, cursor at the required position, element index < length)",
                        "VERIF_TRACK: all loads/stores/memcpy/H1 touches of the translated code are tested with __CPROVER_r_ok/w_ok against the exact allocation; verdict = handler invoked OR no access outside"]
     sch, inc = hgen.gen_headers(ctx, "vs_msg_le.xml")
